@@ -1,7 +1,7 @@
 (** C10 — A client call only ever returns a response to its own transaction. *)
 From Coq Require Import List Arith Lia Bool Sorted.
 Import ListNotations.
-From DV Require Import Client.Routing Client.Macro.
+From DV Require Import Client.Routing Client.Macro Client.Delivery.
 
 (** The receive loop / send / cancel of nclient4 and nclient6 as atomic steps;
     [run_events true l] is the state after ANY interleaving [l] of any number
@@ -49,6 +49,27 @@ Theorem C10_closed_only_when_done : forall l i en, nth_error (ents (run_events t
   e_closed en = true -> e_done en = true.
 Proof. exact closed_only_when_done. Qed.
 Print Assumptions C10_closed_only_when_done.
+
+(** No solicited response is lost.  The hand-over between the receive loop and one pending call with the
+    channel's capacity (5) and the blocking send made explicit ([Client/Delivery.v]: DRead = the loop reads a
+    datagram for the call, DRecv = the call takes one from its channel, DDone = the call gives up): after ANY
+    sequence of these events, while the call has not given up, the datagrams read for it are exactly - in arrival
+    order - those it has received, then those queued, then the one held by the loop blocked on the full channel.
+    Nothing is dropped, duplicated or reordered, whatever the state of the buffer. *)
+Theorem C10_no_solicited_loss : forall l, let c := drun l in
+  d_done c = false -> d_arr c = d_got c ++ d_buf c ++ held_list c.
+Proof. exact no_solicited_loss. Qed.
+Print Assumptions C10_no_solicited_loss.
+
+(** what a call has received is always an initial segment, in arrival order, of what was read for it *)
+Theorem C10_received_prefix_of_arrivals : forall l, exists rest, d_arr (drun l) = d_got (drun l) ++ rest.
+Proof. exact received_prefix_of_arrivals. Qed.
+Print Assumptions C10_received_prefix_of_arrivals.
+
+(** non-vacuity: matcher held on the first of seven datagrams (one received, five queued, one held by the
+    blocked loop), first acceptable at position 6: the matcher sees all seven in order *)
+Example C10_example_full_buffer : matcher_sees [10; 11; 12; 13; 14; 15; 16] 6 = [10; 11; 12; 13; 14; 15; 16].
+Proof. vm_compute. reflexivity. Qed.
 
 (** the invariant behind these statements holds in every reachable state *)
 Theorem C10_invariant : forall l, Inv (run_events true l).
